@@ -64,6 +64,8 @@ def find_witness(pid, obligation):
             ok, err = build_witness()
             if ok and os.path.exists(rows_path):
                 for row in json.load(open(rows_path)):
+                    if row.get("expect") is None:
+                        continue
                     w = {"kind": "call", "fn": "text2digits", "lang": code, "text": row["word"],
                          "expect": {"equals": "Ok(%s)" % json.dumps(row["expect"], ensure_ascii=False)}}
                     p = subprocess.run([wbin("t2n_call"), json.dumps(w)], capture_output=True, text=True, timeout=20)
